@@ -441,5 +441,36 @@ theorem addNew_is_valid_write {s s' : Snap} {n syn : Node} {f2o : SlotMap} {data
     simp only [wfb_of_wf _ (wf_identity _), if_true, beq_self_eq_true, identity_isPartialId, Bool.and_self]
   · rw [addNew_uf h]; unfold ufSet; simp
 
+/-! ## the returned invocation is canonical -/
+
+theorem compose_identity_left {m : SlotMap} (hm : WF m) : composePartial (identity (keys m)) m = m := by
+  apply ext (wf_composePartial _ _) hm
+  intro k
+  rw [get_composePartial (wf_identity _), get_identity]
+  by_cases hk : k ∈ keys m
+  · simp [hk]
+  · simp only [hk, if_false, Option.bind_none]
+    cases hg : get m k with
+    | none => rfl
+    | some v =>
+      exfalso; apply hk
+      exact List.mem_map.mpr ⟨(k, v), (get_eq_some_iff hm k v).mp hg, rfl⟩
+
+/-- the invocation an insertion returns is already canonical (`find` leaves it as it is), and the leader entry of the new class
+is the identity on its slots — the form of entry the theorems about merges and shrinks (`equalities_survive_merge`, …) start from -/
+theorem add_returns_canonical {s s' : Snap} {n syn : Node} {f2o : SlotMap} {data : String} {a : AppId}
+    (h : addNew s n f2o syn data = some (s', a)) :
+    s'.uf[a.id]? = some { id := a.id, m := identity (keys f2o) } ∧ find s' a = some a := by
+  obtain ⟨_, _, _, _, _, _, ha, hwf, _⟩ := addNew_form h
+  have huf := addNew_uf h
+  subst ha
+  have hentry : s'.uf[s.uf.length]? = some { id := s.uf.length, m := identity (keys f2o) } := by
+    rw [huf]; simp
+  refine ⟨hentry, ?_⟩
+  unfold find
+  have hlen : s'.uf.length + 1 = (s.uf.length + 1) + 1 := by rw [huf]; simp
+  rw [hlen, ufGet_leader hentry rfl]
+  simp only [Option.map_some, compose_identity_left (wf_of_wfb _ hwf)]
+
 end Snap
 end SV
